@@ -17,6 +17,9 @@ CHECKS = {
  "C03": ("runtime monitoring of every executed swap + differential re-execution on cloned state with thresholds x-1/x/x+1",
          "Every swap of the history workload (both token programs, v1/v2, all limit classes) is judged on observed balance deltas and pool prices; a third of the successful swaps are re-executed on clones of the pre-state with the slippage threshold one below, at and one above the realised amount, and only the permitted ones may succeed, byte-identically.",
          SVM, "DESIGN.md#c03"),
+ "C04": ("fault enumeration at the transaction boundary: instruction catalogue x authority-variant table executed on cloned state",
+         "Every privileged instruction (catalogue cross-checked against the program's `pub fn` list at run time) has a golden invocation that succeeds; then missing signature, foreign signer, one-bit-off keys, the authority of another config/pool/tier (alone and together with its own config / tier account), another position holder with their own token account, delegates with amount 0/1/2, empty token accounts, token accounts of other positions, delegate key without delegate signature are executed on clones; everything except the documented delegate-with-one-token must fail.",
+         SVM + "; the table of which slot is the authority is written in the harness from the property statement", "DESIGN.md#c04"),
  "C05": ("invariant monitor over decoded on-chain state after every instruction of hostile histories",
          "After every successful instruction of seeded histories the pool's liquidity, every tick's net/gross/initialized flag in every tick array (both encodings, harness-owned decoders) are recomputed from the Position accounts found by scanning the bank and compared.",
          SVM, "DESIGN.md#c05"),
@@ -47,6 +50,12 @@ CHECKS = {
  "C14": ("trace monitor: independent re-statement of the adaptive-fee schedule applied to per-step hook records and oracle state before/after",
          "For every successful swap leg on adaptive-fee pools the expected reference (filter/decay/reset), the per-tick-group rate of every step, rate bounds, accumulator cap, stored accumulator, major-swap timestamp, control-factor-zero equivalence and the trade-enable gate are recomputed independently and compared.",
          SVM + "; major-swap threshold judged with a 2e-9 band on log price", "DESIGN.md#c14"),
+ "C15": ("fault enumeration at the transaction boundary: every bound account slot x every same-kind account of another pool/mint/position/index/program, executed on cloned state",
+         "For every fund-moving instruction a golden invocation succeeds; every slot the property binds to the named pool is then replaced by every other account of the same kind found in a world of six pools over shared and disjoint mints, two configs and reward vaults holding pool mints (plus pair substitutions position+token account and two-hop pool duplication); each substitution must fail.",
+         SVM + "; bound/free classification of slots written in the harness from the property statement", "DESIGN.md#c15"),
+ "C16": ("exact oracle against the token program's own fee function on both implementations (function level) + balance/withheld-amount/event monitor on Token-2022 fee pools (instruction level)",
+         "Anchor and Pinocchio fee-exclusion/inclusion functions are compared with spl-token-2022's TransferFee::calculate_fee over all fee configurations, epochs around the fee switch and hostile amounts (sum, minimality, round trip, equality of implementations); in histories on fee-bearing pools the vault must receive at least the curve input and pay exactly the curve output, requests must be minimal and within maxima, minima apply to what the owner receives, and Traded / Liquidity events must equal the amounts moved and withheld.",
+         SVM + "; spl-token-2022 8.0.1 is the ground truth for withheld fees", "DESIGN.md#c16"),
  "C17": ("differential execution on cloned state: two-hop vs its two single swaps; negative generation (same pool, non-chaining legs); threshold probes",
          "Every successful two-hop of the histories is replayed on a clone as two single swaps with the intermediate amount measured at the vaults: pools, tick arrays, oracles, vaults byte-identical, trader deltas identical, intermediate balance untouched; hostile two-hops must fail; outer thresholds probed at x-1/x/x+1.",
          SVM, "DESIGN.md#c17"),
